@@ -394,23 +394,24 @@ def eval_synthetic(case):
         res.fail("synthetic/class-definition", f"{feats}: {type(exc).__name__}: {exc}")
         return res
     n = 0
+    sroot = "DictLike[array hint npt.NDArray].roundtrip" if ("array" in feats and hint == "npt.NDArray") else "DictLike.roundtrip"
     plants = [None] + [name for name, _ in syn.leaves(feats)] + ["*"]
     for plant in plants:
         obj = syn.instance(cls, feats, plant)
         kind = dict(syn.leaves(feats)).get(plant, "all" if plant == "*" else "none")
         where = f"DictLike with fields {feats or ['plain']} (array hint {hint}), NumPy {kind} planted at {plant}"
-        roundtrip(res, obj, cls, "DictLike.roundtrip", where)
+        roundtrip(res, obj, cls, sroot, where)
         n += 1
     if "optional" in feats:
         obj = syn.instance(cls, feats, None)
         obj.o = None
         obj.oe = None
         obj.on = 3
-        roundtrip(res, obj, cls, "DictLike.roundtrip", f"DictLike with fields {feats}, optional fields swapped (None <-> value)")
+        roundtrip(res, obj, cls, sroot, f"DictLike with fields {feats}, optional fields swapped (None <-> value)")
         obj = syn.instance(cls, feats, None)
         obj.o = 0.0
         obj.on = 0
-        roundtrip(res, obj, cls, "DictLike.roundtrip", f"DictLike with fields {feats}, optional fields holding zeros")
+        roundtrip(res, obj, cls, sroot, f"DictLike with fields {feats}, optional fields holding zeros")
         n += 2
     res.info = {"max_inner_points": n}
     res.outcome = f"synthetic:{len(feats)}:" + ("ok" if not res.fails else "fails")
